@@ -3,6 +3,7 @@ Props/C18.lean — external catch-up never regresses, corrupts or panics.
 -/
 import ChitchatModel.Lemmas.NodeState
 import ChitchatModel.Lemmas.Liveness
+import ChitchatModel.Props.C04
 namespace Chitchat
 open NodeState
 
@@ -161,5 +162,61 @@ example (cfg : Config) (i : Id) :
     ∃ r, ({ cfg := cfg } : Node).resetNodeStateIfUpdate i [] 5 0 = .ok r :=
   let ⟨n', evs, h, _⟩ := C18_no_panic_monotone { cfg := cfg } i [] 5 0
   ⟨(n', evs), h⟩
+
+theorem catchupFold_supplied (kvs : List (Bytes × VV)) :
+    ∀ (s : NodeState) (evs : List Event) (kv : Bytes × VV), kv ∈ kvs →
+      ∃ v', AL.lookup kv.1 (Node.catchupFold (s, evs) kvs).1.kvs = some v' ∧ kv.2.version ≤ v'.version := by
+  induction kvs with
+  | nil => intro s evs kv h; cases h
+  | cons a rest ih =>
+    intro s evs kv hmem
+    have hstep : Node.catchupFold (s, evs) (a :: rest) =
+        Node.catchupFold ((s.setVersionedValue a.1 a.2).1, evs ++ (s.setVersionedValue a.1 a.2).2) rest := by
+      simp [Node.catchupFold]
+    rw [hstep]
+    rcases List.mem_cons.1 hmem with e | hin
+    · subst e
+      obtain ⟨v1, h1, hle1⟩ := svv_holds s kv.1 kv.2
+      obtain ⟨v2, h2, hle2⟩ := (catchupFold_props rest _ (evs ++ (s.setVersionedValue kv.1 kv.2).2)).2.2.2 kv.1 v1 h1
+      exact ⟨v2, h2, by omega⟩
+    · exact ih _ _ kv hin
+
+/-- **C18 (supplied key-values are kept).** When the catch-up is accepted, every supplied key is in
+the copy afterwards at the supplied version or a newer one (the one the copy already held) — none is
+skipped because of the copy's max version. -/
+theorem C18_supplied_kept (n n' : Node) (i : Id) (kvs : List (Bytes × VV)) (mx gc : Nat) (evs : List (Id × Event))
+    (s s' : NodeState) (h : n.resetNodeStateIfUpdate i kvs mx gc = .ok (n', evs))
+    (hs : n.cs.nodeState i = some s) (hs' : n'.cs.nodeState i = some s') (hne : s' ≠ s)
+    (kv : Bytes × VV) (hkv : kv ∈ kvs) :
+    ∃ v', AL.lookup kv.1 s'.kvs = some v' ∧ kv.2.version ≤ v'.version := by
+  unfold Node.resetNodeStateIfUpdate at h
+  simp only at h
+  generalize hcs : (if (n.cs.lastHeartbeatIfDeleted i).isNone = true then n.cs.initIfAbsent i else n.cs) = cs at h
+  have hpres : cs.nodeState i = some s := by
+    rw [← hcs]
+    split
+    · unfold ClusterState.initIfAbsent; rw [hs]; exact hs
+    · exact hs
+  rw [hpres] at h
+  simp only at h
+  split at h
+  · injection h with h; injection h with h _; subst h
+    simp only at hs'; rw [hpres] at hs'; injection hs' with hs'; exact absurd hs'.symm hne
+  · split at h
+    · injection h with h; injection h with h _; subst h
+      simp only at hs'; rw [hpres] at hs'; injection hs' with hs'; exact absurd hs'.symm hne
+    · split at h
+      · injection h with h; injection h with h _; subst h
+        simp only [ClusterState.setNode, ClusterState.nodeState] at hs'
+        rw [AL.lookup_insert_self] at hs'
+        injection hs' with hs'; subst hs'
+        simp only
+        obtain ⟨v', hv', hle⟩ := catchupFold_supplied kvs s [] kv hkv
+        refine ⟨v', ?_, hle⟩
+        have := AL.lookup_filter_key (α := VV) (fun k => (kvs.map (·.1)).contains k) kv.1
+          (Node.catchupFold (s, []) kvs).1.kvs
+        rw [this, if_pos, hv']
+        exact List.contains_iff_mem.2 (List.mem_map.2 ⟨kv, hkv, rfl⟩)
+      · cases h
 
 end Chitchat
